@@ -53,13 +53,15 @@ PROPS["C16"] = dict(
         gen("walk", G.c16_walks(40 if tier == "quick" else 600, 300), dopts=TRACK),
     ],
     rule=
-         "all sequences of keyring mutators up to MaxLen (4 quick / 5 thorough) over an alphabet of 7 loads and removals"
-         " at first/second/last/out-of-range positions, free_bad, free_all, (keys that own provider objects among them; "
-         "every fourth sequence also under GnuTLS), each followed by a full read-back that starts and ends with a get at"
-         " index 2 and is not ascending (item_get 2, 3, 1, 0, 7, 2^32 + k, count, find x4, error_any, item_get 1, 2); "
-         "the driver re-reads the list from the last index down after every mutator, enumerated by TLC from MC_C16; plus"
-         " seeded random walks of 300 operations through every load entry point. distinct = distinct script hashes; "
-         "every case is non-trivial (it contains at least one judged list operation).",
+         "all sequences of keyring mutators up to MaxLen (4 quick / 5 thorough) over an alphabet of 7 loads and removals "
+         "at first/second/last/out-of-range positions, free_bad, free_all, (keys that own provider objects among them; "
+         "every fourth sequence also under GnuTLS), each followed by a full read-back that starts and ends with a get at "
+         "index 2 and is not ascending (item_get 2, 3, 1, 0, 7, 2^32 + k, count, find x7 (exact, other, shorter, longer, "
+         "other case, empty, errored item's kid), error_any, item_get 1, 2); the driver re-reads the list from the last "
+         "index down after every mutator, enumerated by TLC from MC_C16; every load must append exactly one item per "
+         "element of its document, whatever state (sticky error, emptied list) the keyring was in (clause "
+         "C16.append-all); plus seeded random walks of 300 operations through every load entry point. distinct = distinct"
+         " script hashes; every case is non-trivial (it contains at least one judged list operation).",
     assumptions=ASSUME_COMMON,
     level_text="TLC explores every sequence of keyring operations up to the bound on the specification (list invariants checked there) and every one of those behaviours is replayed into libjwt; each observed list (ids by pointer identity, counts, find results, return values) must equal the model's after every operation. Exhaustive up to the bound, sampled (seeded walks) beyond it.",
     level_note="Bounded: sequences of <= 4 (quick) / 5 (thorough) mutators over a 2-kid alphabet; use-after-free and leaks are observed by ASan/LSan on the executed sequences only (leak check every 25 cases and at exit).",
@@ -82,17 +84,19 @@ PROPS["C15"] = dict(
     rule=
          "(graph) every reachable state of the map over names {a,b,c,r,n,o,l} x every operation of a 108-operation "
          "alphabet (set INT/STR/BOOL/JSON obj, a second object carrying a real, a null, a nested object and an array, a "
-         "third whose nested object has other keys (replace overwrites, never merges), arr, malformed, scalar, NULL "
-         "text; names a, b, empty, NULL; with and without replace; get of each type; delete one/all), one implementation"
-         " test per transition, on builder claims and builder headers, and the same behaviours on the jwt_t inside a "
-         "generate callback and a verify callback; (seq) all sequences up to length 3 (quick) / 4 (thorough) over a "
-         "20-operation alphabet (incl. the empty string and non-UTF-8 strings as values); every request's jwt_value_t "
-         "carries a stale error code and the previous request's bits in its value union (only the member of the "
-         "request's type is written, as the public macros do); (walk) seeded random walks of 200 operations with 64-bit "
-         "extremes; (alias) a member of every type stored on the builder, the same name replaced / deleted / deleted-all"
-         " on the token by the callback or stamped by the library (iat, nbf, exp), two generates, builder read back: the"
-         " builder's maps hold what was stored on the builder. After every operation the whole header and claim objects "
-         "are read back and compared with the model. distinct = distinct script hashes.",
+         "third whose nested object has other keys (replace overwrites, never merges), arr, malformed, scalar, NULL text;"
+         " names a, b, empty, NULL; with and without replace; named INT/STR/BOOL sets on the names the JSON objects merge"
+         " in and JSON text with white space around every token (tab, CR, LF, blanks: both tried in every reachable "
+         "state, not used to reach further states); get of each type; delete one/all), one implementation test per "
+         "transition, on builder claims and builder headers, and the same behaviours on the jwt_t inside a generate "
+         "callback and a verify callback; (seq) all sequences up to length 3 (quick) / 4 (thorough) over a 20-operation "
+         "alphabet (incl. the empty string and non-UTF-8 strings as values); every request's jwt_value_t carries a stale "
+         "error code and the previous request's bits in its value union (only the member of the request's type is "
+         "written, as the public macros do); (walk) seeded random walks of 200 operations with 64-bit extremes; (alias) a"
+         " member of every type stored on the builder, the same name replaced / deleted / deleted-all on the token by the"
+         " callback or stamped by the library (iat, nbf, exp), two generates, builder read back: the builder's maps hold "
+         "what was stored on the builder. After every operation the whole header and claim objects are read back and "
+         "compared with the model. distinct = distinct script hashes.",
     assumptions=ASSUME_COMMON,
     level_text="TLC explores the complete state graph of the typed-map specification (78 states, every operation "
                "from every state) and checks the map laws on it; each transition is replayed into libjwt at four "
@@ -109,14 +113,17 @@ PROPS["C02"] = dict(
     rule=
          "finite matrix enumerated by TLC from MC_C02: (A) configured alg x key (absent, or key type x alg attribute "
          "incl. none, unknown and a family prefix such as HS) x {setkey, callback} on checker and builder; (B) every "
-         "admitted checker configuration x 37 header alg spellings (14 names, none/None/NONE, case and padding variants,"
-         " unknown, missing, non-string, near misses: family prefix, one more character, a NUL character inside, single "
+         "admitted checker configuration x 37 header alg spellings (14 names, none/None/NONE, case and padding variants, "
+         "unknown, missing, non-string, near misses: family prefix, one more character, a NUL character inside, single "
          "letters) x signature class {empty, garbage, valid under the configured key, genuine under the checker's own "
          "algorithm whatever the header says, genuine under the algorithm the key is made for (an ECDSA signature "
-         "labelled EdDSA), HMAC under the empty key, HMAC under the public PEM, valid under another key} x route "
-         "{setkey, callback sets key+alg, key only, alg only}; (C) builder configurations x routes -> generate; (D) "
-         "history: an EC key first used, successfully, under the algorithm it is made for, then pinned to every other "
-         "ES* algorithm (checker and builder). quick uses one key per family and 9 of 16 configured algs, thorough all. "
+         "labelled EdDSA), HMAC under the empty key, HMAC under the public PEM, valid under another key} x route {setkey,"
+         " callback sets key+alg, key only, alg only}; (C) builder configurations x routes -> generate; (D) history: an "
+         "EC key first used, successfully, under the algorithm it is made for, then pinned to every other ES* algorithm "
+         "(checker and builder). (E) key swap: the object holds a default key whose alg attribute pins its algorithm "
+         "(setkey with no or the matching explicit algorithm) and the callback hands over another key of the same family "
+         "that has no alg attribute and names no algorithm (checker: token signed by that key under the default key's "
+         "algorithm; builder: generate). quick uses one key per family and 9 of 16 configured algs, thorough all. "
          "distinct = distinct cells (script hashes).",
     assumptions=ASSUME_COMMON,
     level_text="The space is finite and TLC enumerates it completely within the chosen key set; the reference "
@@ -133,14 +140,16 @@ PROPS["C03"] = dict(
     level="model_checking", exhaustive=True,
     stages=lambda tier, seed: [mc("matrix", "MC_C03", "MC_C03_%s.cfg" % tier), gen("apiwalk", G.api_walks(300 if tier == "quick" else 20000, 60), dopts=TRACK)],
     rule=
-         "finite matrix from MC_C03: checker set-ups (key loaded but not set / set with or without explicit alg; key "
-         "with and without alg attribute) x callback {none, empty, sets key, sets alg, sets both, key + alg none} x "
-         "header alg {none, None, NONE, the matching algorithm, missing, each non-string JSON type, none followed by a "
-         "space or by a NUL character, the empty string, n} x signature {empty, valid, garbage} x shape {3 segments, 2 "
-         "segments, 4 segments, 4 with empty last}; the key-less checker against every token class; builder set-ups x "
-         "the same callbacks -> generate; the callback's life cycle (setcb, context-only setcb(NULL, ctx), setcb(NULL, "
-         "NULL) in seven orders) before a generate / verify on objects keyed only through the callback. oct and RSA keys"
-         " in quick, all key types in thorough. distinct = distinct cells.",
+         "finite matrix from MC_C03: checker set-ups (key loaded but not set / set with or without explicit alg; key with"
+         " and without alg attribute) x callback {none, empty, sets key, sets alg, sets both, key + alg none} x header "
+         "alg {none, None, NONE, the matching algorithm, missing, each non-string JSON type, none followed by a space or "
+         "by a NUL character, the empty string, n} x signature {empty, valid, garbage} x shape {3 segments, 2 segments, 4"
+         " segments, 4 with empty last}; the key-less checker against every token class; builder set-ups x the same "
+         "callbacks -> generate; the callback's life cycle (setcb, context-only setcb(NULL, ctx), setcb(NULL, NULL) in "
+         "seven orders) before a generate / verify on objects keyed only through the callback. Every one of the 13 "
+         "algorithms pinned (setkey and callback) on a private key of every type without alg attribute (oct 32/64, RSA "
+         "2048/3072, P-256/384/521, secp256k1, Ed25519, Ed448) under both providers -> generate: whatever a keyed builder"
+         " returns carries a signature. oct and RSA keys in quick, all key types in thorough. distinct = distinct cells.",
     assumptions=ASSUME_COMMON,
     level_text="Complete enumeration of the configuration x token-shape matrix on the specification (reference outcome "
                "satisfies C03 on every cell) and replay of every cell into libjwt; an accepted token must be signed "
@@ -154,23 +163,29 @@ PROPS["C03"] = dict(
 PROPS["C01"] = dict(
     level="model_checking", exhaustive=True,
     stages=lambda tier, seed: [mc("matrix", "MC_C01", "MC_C01_%s.cfg" % tier, expand=G.replicate(3 if tier == "quick" else 300)),
-                               gen("rotation", G.c01_rotation(2 if tier == "quick" else 10), dopts=dict(env=G.ZEROQ))],
+                               gen("rotation", G.c01_rotation(2 if tier == "quick" else 10), dopts=dict(env=G.ZEROQ)),
+                               gen("apiwalk", G.api_walks(300 if tier == "quick" else 20000, 60), dopts=TRACK)],
     rule=
          "matrix from MC_C01: (key, algorithm) pairs covering oct, RSA (PKCS1 and PSS, incl. an RSA-PSS typed key), "
-         "P-256/384/521, secp256k1, Ed25519, Ed448, plus HS* pinned explicitly on RSA/EC/OKP public keys (admitted by "
-         "the setkey table, never verifiable) x both providers x signature class {valid, non-canonical base64 of the "
-         "same bytes, empty, garbage of two lengths, not base64, duplicated, bit flipped at first/last/random position, "
+         "P-256/384/521, secp256k1, Ed25519, Ed448, plus HS* pinned explicitly on RSA/EC/OKP public keys (admitted by the"
+         " setkey table, never verifiable) x both providers x signature class {valid, non-canonical base64 of the same "
+         "bytes, empty, garbage of two lengths, not base64, duplicated, bit flipped at first/last/random position, "
          "truncated by 1/2, extended by random/zero bytes, signed over header only / payload only / with trailing dot / "
          "swapped segments / other text / the decoded JSON, by another key, by the same key under a sibling algorithm, "
          "ES: r and s zero-extended to wider widths, DER; HS: HMAC under empty and all-zero keys and, for public keys, "
          "under the PEM text; a genuine MAC that begins with / contains a zero octet offered with every later octet "
          "changed} + header/payload altered after signing + the genuine signature as LAST segment behind extra ones "
          "(h.p.AAAA.s, h.p..s, h.p.x.y.s, h.p.s.s, h.p.s.AAAA, h.p.s.) + header re-targeted to alg none; each cell "
-         "concretised 3 (quick) / 300 (thorough) times with seed-drawn positions. Signatures are made by the driver's "
-         "own signer. Stage 'rotation': a checker holds public key A and accepts A's token; A's keyring is freed, key B "
-         "loaded and given to the checker: A's token must be refused and B's accepted, seven key pairs x both providers "
-         "x 2..3 (quick) / up to 11 (thorough) rotations, run with a zero ASan quarantine so that freed addresses are "
-         "reused at once. distinct = distinct cells x reps.",
+         "concretised 3 (quick) / 300 (thorough) times with seed-drawn positions. Signatures are made by the driver's own"
+         " signer. Stage 'rotation': a checker holds public key A and accepts A's token; A's keyring is freed, key B "
+         "loaded and given to the checker: A's token must be refused and B's accepted, seven key pairs x both providers x"
+         " 2..3 (quick) / up to 11 (thorough) rotations, run with a zero ASan quarantine so that freed addresses are "
+         "reused at once. Callback scripts: a checker pinned to key A whose callback selects key B for exactly one token "
+         "(B's token accepted), callback removed: B's token must be refused again and A's accepted, over 6 key pairs x "
+         "both providers. Refused configuration: after a setkey that is refused (algorithm of another family, algorithm "
+         "without a key, a key whose alg attribute contradicts, INVAL) the unsigned, the stripped and another key's token"
+         " stay refused and the genuine one accepted, 4 key pairs x 6 refused calls x both providers. Tokens reach the "
+         "library in heap blocks of exactly their size. distinct = distinct cells x reps.",
     assumptions=ASSUME_COMMON + ["cryptography is treated as perfect: a mutated valid signature is assumed invalid (by construction, not by TLC)"],
     level_text="Exhaustive over the abstract cells (key class x algorithm x provider x signature/alteration class); "
                "within a cell bytes are sampled. Accepting any cell whose class is not 'valid signature by the "
@@ -182,16 +197,17 @@ PROPS["C01"] = dict(
 
 PROPS["C09"] = dict(
     level="model_checking", exhaustive=True,
-    stages=lambda tier, seed: [mc("matrix", "MC_C09", "MC_C09_%s.cfg" % tier)],
+    stages=lambda tier, seed: [mc("matrix", "MC_C09", "MC_C09_%s.cfg" % tier), gen("apiwalk", G.api_walks(300 if tier == "quick" else 20000, 60), dopts=TRACK)],
     rule=
-         "matrix from MC_C09: oct keys of length {0,1,16,31,32,33,47,48,49,63,64,65,100,160} (quick) / every length "
-         "0..160 (thorough) x HS256/384/512 (keys without alg attribute, and keys of 1..100 bytes whose JWK names the "
-         "algorithm); RSA moduli of 512, 1024, 2040, 2047, 2048, 2056, 3072, 4096 bits x RS/PS algorithms; P-256/384/521"
-         " and secp256k1 x every ES algorithm; Ed25519 and Ed448; algorithm x key of another kind altogether "
-         "(EdDSA/ES256/RS256/HS256 with EC, RSA, OKP and oct keys, token signed genuinely under the key's own "
-         "algorithm); each through generate (private key), verify of the generated token and verify of a token signed by"
-         " the driver's own signer (public key), on OpenSSL and GnuTLS. Both directions are judged: below the floor "
-         "never succeeds, at or above it works. distinct = distinct cells.",
+         "matrix from MC_C09 (every pair through setkey AND through a callback that hands over key and algorithm): oct "
+         "keys of length {0,1,16,31,32,33,47,48,49,63,64,65,100,160} (quick) / every length 0..160 (thorough) x "
+         "HS256/384/512 (keys without alg attribute, and keys of 1..100 bytes whose JWK names the algorithm); RSA moduli "
+         "of 512, 1024, 2040, 2047, 2048, 2056, 3072, 4096 bits x RS/PS algorithms; P-256/384/521 and secp256k1 x every "
+         "ES algorithm; Ed25519 and Ed448; algorithm x key of another kind altogether (EdDSA/ES256/RS256/HS256 with EC, "
+         "RSA, OKP and oct keys, token signed genuinely under the key's own algorithm); each through generate (private "
+         "key), verify of the generated token and verify of a token signed by the driver's own signer (public key), on "
+         "OpenSSL and GnuTLS. Both directions are judged: below the floor never succeeds, at or above it works. distinct "
+         "= distinct cells.",
     assumptions=ASSUME_COMMON,
     level_text="The matrix is finite and enumerated completely (every oct length in thorough); TLC shows the reference "
                "outcome satisfies C09 on every cell and every cell is executed against libjwt.",
@@ -230,6 +246,7 @@ PROPS["C04"] = dict(
     stages=lambda tier, seed: [
         mc("lattice", "MC_C04", "MC_C04_%s.cfg" % tier),
         gen("walk", G.c04_walks(4000 if tier == "quick" else 200000)),
+        gen("apiwalk", G.api_walks(300 if tier == "quick" else 20000, 60), dopts=TRACK),
     ],
     rule=
          "from MC_C04: boundary lattice exp - (now - leeway) and nbf - (now + leeway) in {-2..2} for now in {0, 1.7e9, "
@@ -257,11 +274,14 @@ PROPS["C19"] = dict(
     stages=lambda tier, seed: [mc("progs", "MC_C19", "MC_C19_%s.cfg" % tier), gen("apiwalk", G.api_walks(300 if tier == "quick" else 20000, 60), dopts=TRACK)],
     rule=
          "from MC_C19: all callback programs of up to 2 (quick) / 3 (thorough) steps over 16 header/claim steps (delete "
-         "exp/nbf/iss/aud, delete all claims, delete all headers, delete/replace header alg, replace exp/nbf with "
-         "passing or failing values, set/replace iss, add aud), plus control steps (return 1, -1, 256, INT_MIN+1, select key and/or alg, "
-         "clear key) alone and combined with one edit; x 4 claim-check configurations x 10 tokens (passing and failing "
-         "each check, bad signature, unsigned, other key); every verify is repeated on an identically configured checker"
-         " without the callback and both verdicts are logged. distinct = distinct scripts.",
+         "exp/nbf/iss/aud, delete all claims, delete all headers, delete/replace header alg, replace exp/nbf with passing"
+         " or failing values, set/replace iss, add aud), plus control steps (return 1, -1, 256, INT_MIN+1, select key "
+         "and/or alg, clear key) alone and combined with one edit; x 4 claim-check configurations x 10 tokens (passing "
+         "and failing each check, bad signature, unsigned, other key); two verifications on one checker (with and without"
+         " its own key): the first callback selects another key, the second (a successor that returns 0 and edits the "
+         "token or does nothing, or no callback after setcb(NULL, NULL)) leaves the configuration alone - tokens of both "
+         "keys; every verify is repeated on an identically configured checker without the callback and both verdicts are "
+         "logged. distinct = distinct scripts.",
     assumptions=ASSUME_COMMON,
     level_text="Programs are enumerated exhaustively up to the bound by TLC; on the specification the verdict is a "
                "function of the parsed token and the configuration after the callback, never of the callback's edits; "
@@ -275,19 +295,26 @@ PROPS["C19"] = dict(
 
 PROPS["C13"] = dict(
     level="model_checking", exhaustive=True,
-    stages=lambda tier, seed: [mc("seq", "MC_C13", "MC_C13_%s.cfg" % tier), gen("apiwalk", G.api_walks(300 if tier == "quick" else 20000, 60), dopts=TRACK)],
+    stages=lambda tier, seed: [mc("seq", "MC_C13", "MC_C13_%s.cfg" % tier), mc("heap", "MC_C13", "MC_C13_nc.cfg", dopts=TRACK), gen("apiwalk", G.api_walks(300 if tier == "quick" else 20000, 60), dopts=TRACK)],
     rule=
          "from MC_C13: all sequences of length 4 (quick) / 5 (thorough) over 13 checker elements (verify valid, bad "
          "signature, expired, no dot, header not JSON, no alg, NULL, empty, algorithm mismatch, callback failing then "
-         "restored, callback selecting another key for one call, refused setkey, error_clear) on a checker with setkey, "
-         "5 elements on a checker whose keys only ever come from its callback, 8 elements on a checker with claim "
-         "expectations (verify matching / other / missing iss, claim_set valid and with values that are not UTF-8 - "
-         "which fail after making the claim mandatory -, claim_del, error_clear), 7 elements on the callback's life "
-         "cycle (verify good / bad signature, install a refusing callback that stays, install an accepting one, remove "
-         "it, context-only update, error_clear), and over 7 builder elements (generate, failing callback, callback "
-         "selecting another key once, key below the floor then restored, refused setkey, error_clear, claim change) on "
-         "builders with and without setkey; every verify/generate is also performed on a freshly created twin configured"
-         " by replaying the same configuration calls, and both results are logged. distinct = distinct sequences.",
+         "restored, callback selecting another key for one call, refused setkey, error_clear) on a checker with setkey, 5"
+         " elements on a checker whose keys only ever come from its callback, 8 elements on a checker with claim "
+         "expectations (verify matching / other / missing iss, claim_set valid and with values that are not UTF-8 - which"
+         " fail after making the claim mandatory -, claim_del, error_clear), 7 elements on the callback's life cycle "
+         "(verify good / bad signature, install a refusing callback that stays, install an accepting one, remove it, "
+         "context-only update, error_clear), and over 7 builder elements (generate, failing callback, callback selecting "
+         "another key once, key below the floor then restored, refused setkey, error_clear, claim change) on builders "
+         "with and without setkey; an asymmetric history family (refused RS256 / ES256 tokens, an unusable EC JWK loaded,"
+         " then valid and invalid ES256 tokens); stage 'heap': sequences of 4 over 9 elements (canonical tokens of two "
+         "header lengths, tokens whose header and/or payload segment is not canonically encoded - unused bits set -, a "
+         "bad signature, error_clear) under an application allocator whose fresh blocks hold something else each time "
+         "(blank, NUL, '}', 'A', 0xbe, '\"'): the same answer every time whatever the heap held; every verify/generate is "
+         "also performed on a freshly created twin configured by replaying the same configuration calls, and both results"
+         " are logged; besides reused = fresh, every verdict must be the one the specification computes from "
+         "configuration, token and clock (clause C13.function), so a dependence on hidden state that a fresh object on "
+         "the same thread shares is seen too. distinct = distinct sequences.",
     assumptions=ASSUME_COMMON + ["'identically configured' = the same sequence of configuration calls replayed on a new object"],
     level_text="TLC enumerates every history up to the bound; on the specification the configuration a verdict is "
                "computed from is shown to be a function of the configuration calls alone (invariant "
@@ -303,14 +330,15 @@ PROPS["C10"] = dict(
     stages=lambda tier, seed: [mc("seq", "MC_C10", "MC_C10_%s.cfg" % tier), gen("apiwalk", G.api_walks(300 if tier == "quick" else 20000, 60), dopts=TRACK)],
     rule=
          "from MC_C10: all sequences of 3 builder configuration calls over an alphabet of 19 (quick) / 35 (thorough) "
-         "calls - header set (typ as string and as integer, user-set alg as string and as boolean, kid) and delete, "
-         "claim set (same-named iat/exp/nbf, sub, bool; JSON reals that need 17 significant digits - the driver projects"
-         " reals with %.17g) and delete, enable_iat 0/1, time_offset for exp/nbf in {-5, 0, 1, 60, 3600, 2^31, 2^32+5, a"
-         " century} and for an invalid claim, setkey (HS256 oct, RS256 private, RS256 public-only, ES256, none, remove),"
-         " setcb with two mutating programs and removal, clock changes - with a generate after every call, plus all "
-         "pairs over the full alphabet. Every token is decoded by the driver (segments, canonical base64url, header and "
-         "payload objects, signature checked against every loaded key) and the builder's header and claim objects are "
-         "read back after each generate. distinct = distinct sequences.",
+         "calls - header set (typ as string and as integer, user-set alg as string and as boolean, kid) and delete, claim"
+         " set (same-named iat/exp/nbf, sub, bool; JSON reals that need 17 significant digits - the driver projects reals"
+         " with %.17g) and delete, enable_iat 0/1, time_offset for exp/nbf in {-5, 0, 1, 60, 3600, 2^31, 2^32+5, a "
+         "century} and for an invalid claim, setkey (HS256 oct, RS256 private, RS256 public-only, ES256, none, remove), "
+         "setcb with two mutating programs and removal (setcb(NULL, NULL); a callback that still runs afterwards, with no"
+         " context, leaves a mark in the token that the specification's token lacks), clock changes - with a generate "
+         "after every call, plus all pairs over the full alphabet. Every token is decoded by the driver (segments, "
+         "canonical base64url, header and payload objects, signature checked against every loaded key) and the builder's "
+         "header and claim objects are read back after each generate. distinct = distinct sequences.",
     assumptions=ASSUME_COMMON,
     level_text="Bounded-exhaustive over builder configuration histories: TLC computes what each generate must return "
                "(header with alg forced and typ defaulted, claims with iat/nbf/exp overriding, callback edits visible "
@@ -333,13 +361,13 @@ PROPS["C05"] = dict(
          "integers, strings to 64 KiB in thorough)} x time configuration {default, exp+nbf offsets with clock advance, "
          "iat off, expiry a century / 2^31+1000 s ahead, exp claims of year 9999 and LONG_MAX}; plus an application-set "
          "typ / kid / crit header of every JSON type (integer, boolean, empty string, object, array) and JSON text with "
-         "the escape \\u0000 inside strings given to the builder's header and claims (taken or refused, what is generated"
-         " must verify); generate, then verify on a checker holding the public form with a callback that reads header "
-         "and claims. JSON trees are seeded random per case; what the builder was given, what the token carries and what"
-         " the callback read are digested by one canonicaliser (sorted, compact) after removing alg/typ/iat/nbf/exp, "
-         "which are compared member by member. Stage 'ecdsa': 500 (quick) / 20000 (thorough) generate+verify pairs per "
-         "curve and signing provider; coverage.short_rs counts signatures whose r or s has a leading zero byte. distinct"
-         " = distinct scripts.",
+         "the escape \\u0000 inside strings given to the builder's header and claims (taken or refused, what is generated "
+         "must verify); generate, then verify on a checker holding the public form with a callback that reads header and "
+         "claims. Integers beyond 2^53 are in the quick trees too. JSON trees are seeded random per case; what the "
+         "builder was given, what the token carries and what the callback read are digested by one canonicaliser (sorted,"
+         " compact) after removing alg/typ/iat/nbf/exp, which are compared member by member. Stage 'ecdsa': 500 (quick) /"
+         " 20000 (thorough) generate+verify pairs per curve and signing provider; coverage.short_rs counts signatures "
+         "whose r or s has a leading zero byte. distinct = distinct scripts.",
     assumptions=ASSUME_COMMON + ["JSON equality is decided on SHA-256 digests of jansson's canonical dump computed by the driver for all three sides"],
     level_text="The behaviour matrix (key/alg x provider pair x tree class x time configuration) is enumerated by TLC, "
                "which also shows that on the specification every generated token is accepted by the matching checker; "
@@ -367,20 +395,21 @@ PROPS["C12"] = dict(
     stages=_c12_stages,
     rule=
          "from MC_C12: (A) one forged token per cell, kept in a slot and verified under both providers in both orders "
-         "(key loaded under either provider): every common (key, algorithm) pair x {valid, empty, garbage, not base64, "
-         "flipped first/any bit, truncated, extended with zero/random bytes, signed over other text, other key, sibling "
+         "(key loaded under either provider): every common (key, algorithm) pair (oct keys of 32..100 octets: equal to "
+         "and longer than the hash output, up to and beyond the block size) x {valid, empty, garbage, not base64, flipped"
+         " first/any bit, truncated, extended with zero/random bytes, signed over other text, other key, sibling "
          "algorithm, ES: zero-extended r||s and DER} and header/payload altered after signing; (B) deterministic "
-         "algorithms (HS*, RS*, EdDSA): the same builder generates under provider 1 and provider 2, token digests must "
-         "be equal and each provider verifies both; randomised ones (PS*, ES*): cross acceptance; (C) all pairs of "
+         "algorithms (HS*, RS*, EdDSA): the same builder generates under provider 1 and provider 2, token digests must be"
+         " equal and each provider verifies both; randomised ones (PS*, ES*): cross acceptance; (C) all pairs of "
          "set_crypto_ops/_t calls over 12 names (exact, case variants, padded, prefixes, unknown, empty) and ids -1..5, "
          "99; (D) one driver process per JWT_CRYPTO value {openssl, gnutls, GnuTLS, 'gnutls ', mbedtls, '', x, "
          "opensslgnutls, unset}. (E) history: an unusable JWKS member, a refused RS256 and a refused ES512 token under "
-         "either provider before the verdict comparison. Each matrix cell is concretised 2 (quick) / 60 (thorough) "
-         "times. (F) private OKP keys whose x member is ANOTHER key's public half: identical tokens from both providers,"
-         " mutual acceptance, acceptance by the true public key. Stage 'rotation': sign with key A, free its keyring, "
-         "load key B (same type for six pairs, another type for three), sign, verify under both providers, 2..3 (quick) "
-         "/ up to 13 (thorough) rotations per script - run with a zero ASan quarantine so that the freed key's address "
-         "is reused at once; the token must carry the current key's signature and both providers must accept it.",
+         "either provider before the verdict comparison. Each matrix cell is concretised 2 (quick) / 60 (thorough) times."
+         " (F) private OKP keys whose x member is ANOTHER key's public half: identical tokens from both providers, mutual"
+         " acceptance, acceptance by the true public key. Stage 'rotation': sign with key A, free its keyring, load key B"
+         " (same type for six pairs, another type for three), sign, verify under both providers, 2..3 (quick) / up to 13 "
+         "(thorough) rotations per script - run with a zero ASan quarantine so that the freed key's address is reused at "
+         "once; the token must carry the current key's signature and both providers must accept it.",
     assumptions=ASSUME_COMMON,
     level_text="TLC enumerates the matrix and checks on the specification that verdicts and deterministic tokens do "
                "not depend on the provider variable and that the provider changes only on an exact name/id; each "
@@ -396,20 +425,23 @@ PROPS["C06"] = dict(
     stages=lambda tier, seed: [
         mc("classes", "MC_C06", "MC_C06_%s.cfg" % tier, expand=G.replicate(1 if tier == "quick" else 20)),
         gen("fuzz", G.c06_fuzz(800 if tier == "quick" else 40000, 250), target_ops=60000, dopts=TRACK),
+        gen("apiwalk", G.api_walks(300 if tier == "quick" else 20000, 60), dopts=TRACK),
     ],
     rule=
          "(classes) from MC_C06: every shape (NULL, empty, 0/1/2/3/4 dots, leading dot) x header class (object, "
          "whitespace, not JSON, array, scalar, string, null, not base64, length 1 mod 4, empty, {}, duplicate keys) x "
-         "payload class x 20 alg spellings (incl. missing, each non-string JSON type, printf conversions, family prefix,"
-         " one more character, a NUL character inside, names of 240 / 248 / 300 / 1500 / 70000 characters) x signature "
+         "payload class x 20 alg spellings (incl. missing, each non-string JSON type, printf conversions, family prefix, "
+         "one more character, a NUL character inside, names of 240 / 248 / 300 / 1500 / 70000 characters) x signature "
          "class, one dimension at a time plus header x payload pairs, plus checkers expecting iss / sub / aud x that "
-         "claim as every JSON type (string, empty string, integer, boolean, null, real, array, object, string with NUL),"
-         " against key-less, HS256, RS256, ES256 and EdDSA checkers on both providers: the class is known by "
-         "construction, so rejection is judged; (fuzz) seeded byte-level mutations (set/delete/insert of structural and "
-         "high-bit bytes, truncation, duplication, padding to 64 KiB) of tokens the library generated itself, and random"
-         " byte strings of 0..64 KiB, 250 per case, under the same eight configurations: these constrain only 'the call "
-         "returns, no sanitizer report, no leak'. Recorded under ASan+UBSan, LeakSanitizer check every 20 cases and at "
-         "exit, 60 s watchdog per call. distinct = distinct scripts (fuzz cases differ in every token).",
+         "claim as every JSON type (string, empty string, integer, boolean, null, real, array, object, string with NUL), "
+         "against key-less, HS256, RS256, ES256 and EdDSA checkers on both providers: the class is known by construction,"
+         " so rejection is judged; exp / nbf at both ends of the 64-bit range (LONG_MIN, LONG_MAX, +-1, +-299, +-300, "
+         "+-2^40) against checkers with a leeway of 1, 300 and 2^40 seconds; (fuzz) seeded byte-level mutations "
+         "(set/delete/insert of structural and high-bit bytes, truncation, duplication, padding to 64 KiB) of tokens the "
+         "library generated itself, and random byte strings of 0..64 KiB, 250 per case, under the same eight "
+         "configurations: these constrain only 'the call returns, no sanitizer report, no leak'. Recorded under "
+         "ASan+UBSan, LeakSanitizer check every 20 cases and at exit, 60 s watchdog per call. distinct = distinct scripts"
+         " (fuzz cases differ in every token).",
     assumptions=ASSUME_COMMON + ["byte-level inputs are generated without coverage feedback; this is weaker than a coverage-guided fuzzer"],
     level_text="Exploration: the structural classes of the specification's Parse function are enumerated completely "
                "and judged (non-zero for every malformed class); memory safety, termination and leak freedom are "
@@ -430,19 +462,20 @@ PROPS["C07"] = dict(
          "(defects) from MC_C07: ten valid baselines (oct, RSA private/public/PSS, P-256 private, P-384, P-521, "
          "secp256k1, Ed25519 private, Ed448 public) x every member of that key type and the common members (kty, alg, "
          "use, key_ops, kid; n,e,d,p,q,dp,dq,qi; crv,x,y,d; k) x 14 classes (absent, null, integer, real, bool, array, "
-         "object, empty string, not base64url, length 1 mod 4, too short, too long, unknown string, foreign value) - one"
-         " member (quick) or two members (thorough) deviating - as a single JWK and between two good keys in a JWKS; "
-         "every entry point (load, load_strn, create, create_strn, fromfile, fromfp, create_fromfile, create_fromfp) x "
+         "object, empty string, not base64url, length 1 mod 4, too short, too long, unknown string, foreign value) - one "
+         "member (quick) or two members (thorough) deviating - as a single JWK and between two good keys in a JWKS; every"
+         " entry point (load, load_strn, create, create_strn, fromfile, fromfp, create_fromfile, create_fromfp) x "
          "document class (JWKS, JWKS with extra members, top-level array, 10 non-JSON texts, 10 JSON documents that are "
-         "not JWK objects, keys array of non-objects). (fuzz) 63 texts carrying printf conversions in unterminated "
-         "tokens (quoted by the parser's error text) and in member values through every entry point, seeded random "
-         "bytes, random JSON over JWK member names and byte-mutated JWKS texts (mutations insert conversions too), "
-         "judged only for 'returns, no sanitizer report, no leak, each new item errored-with-message or usable'. "
-         "ASan+UBSan, leak check every 10 cases. (alloc) keys of every type, well-formed and defective, through every "
-         "entry point and through find / free_bad / item_free / free_all / jwks_free under both providers with an "
-         "application allocator that is not libc's: the driver tracks every block it handed out, and a block it never "
-         "handed out that reaches its free() from inside a library call is an abort. Defect classes include member "
-         "values with characters beyond ASCII (valid UTF-8). distinct = distinct scripts.",
+         "not JWK objects, keys array of non-objects). (fuzz) 63 texts carrying printf conversions in unterminated tokens"
+         " (quoted by the parser's error text) and in member values through every entry point, seeded random bytes, "
+         "random JSON over JWK member names and byte-mutated JWKS texts (mutations insert conversions too), judged only "
+         "for 'returns, no sanitizer report, no leak, each new item errored-with-message or usable'. ASan+UBSan, leak "
+         "check every 10 cases. (alloc) keys of every type, well-formed and defective, through every entry point and "
+         "through find / free_bad / item_free / free_all / jwks_free under both providers with an application allocator "
+         "that is not libc's: the driver tracks every block it handed out, and a block it never handed out that reaches "
+         "its free() from inside a library call is an abort. After every case the lowest free descriptor is where it was "
+         "when the case began (a FILE or descriptor left open is a leak too: clause fdleak). Defect classes include "
+         "member values with characters beyond ASCII (valid UTF-8). distinct = distinct scripts.",
     assumptions=ASSUME_COMMON,
     level_text="The JWK defect lattice (document class x key type x member x value class) is enumerated completely by "
                "TLC and executed: set error and no items for non-JSON, exactly one item per element in order, every "
@@ -465,13 +498,15 @@ PROPS["C08"] = dict(
          "sig/enc/other, key_ops subsets incl. unknown names) with the default encoding, and x integer encoding (fixed "
          "width, minimal, zero-padded by 1 and 3 bytes) x extra-member set (none, members of other key types, unknown "
          "members; unknown members of every JSON type - true, false, number, real, null, object - for every key type) "
-         "with plain metadata; OKP keys whose x or d begins with a zero octet, oct keys whose first / last octet is NUL,"
-         " newline, space, '=' or 0xff; as a single JWK and inside a JWKS; and 'history' cells: each of five defective "
-         "keys (point not on the curve, unknown curve, short coordinate, incomplete RSA private key, short OKP key) "
-         "imported before a well-formed key of every type - in the same set and by an earlier call on the same thread. "
-         "Stage 'fresh' repeats every 9th (quick) / every 2nd (thorough, 4 times) cell with key material generated on "
-         "the spot (OpenSSL keygen, fresh oct bytes). The driver exports with its own exporter, parses the item's PEM "
-         "with OpenSSL and compares public and private components with the exported key. distinct = distinct scripts.",
+         "with plain metadata; OKP keys whose x or d begins with a zero octet, oct keys whose first / last octet is NUL, "
+         "newline, space, '=' or 0xff; as a single JWK and inside a JWKS; key_ops lists of every single operation, every "
+         "ordered pair (incl. a repeated name), every set of seven and the reverse order on an oct, an EC and an OKP key;"
+         " and 'history' cells: each of five defective keys (point not on the curve, unknown curve, short coordinate, "
+         "incomplete RSA private key, short OKP key) imported before a well-formed key of every type - in the same set "
+         "and by an earlier call on the same thread. Stage 'fresh' repeats every 9th (quick) / every 2nd (thorough, 4 "
+         "times) cell with key material generated on the spot (OpenSSL keygen, fresh oct bytes). The driver exports with "
+         "its own exporter, parses the item's PEM with OpenSSL and compares public and private components with the "
+         "exported key. distinct = distinct scripts.",
     assumptions=ASSUME_COMMON + ["equality of key components (big numbers, octets) is computed by the driver's projection against the key it exported; TLC judges the projected record"],
     level_text="The structural matrix (type x size x form x metadata x encoding x extras) is enumerated by TLC and each "
                "cell executed; every reported attribute must equal what the JWK states and the key material must "
@@ -486,24 +521,27 @@ PROPS["C11"] = dict(
     stages=lambda tier, seed: [
         mc("batches", "MC_C11", "MC_C11_%s.cfg" % tier, target_ops=7),
         gen("random", G.c11_random(40 if tier == "quick" else 600, 40)),
-        gen("users", G.c11_users(100 if tier == "quick" else 1500)),
+        gen("users", G.c11_users(300 if tier == "quick" else 1500)),
+        gen("sweep", G.c11_sweep(1100 if tier == "quick" else 6200)),
     ],
     rule=
          "On the specification (MC_C11): Dec(Enc(b)) = b, unpadded URL-safe output of the RFC length, rejection of "
-         "foreign bytes ahead of '=' and of lengths 1 mod 4, canonical decoding - for all byte strings of length 1..2 "
-         "and all 3-byte strings over a byte set (12 values quick / all 256 for lengths 1..2 and 34 for length 3 "
-         "thorough) and all texts of length 1..3(4) over a 24-character class alphabet and 1..5 over an 8-character one."
-         " Against the implementation (CodecBatch; inputs regenerated and counted in TLC): encode of every byte string "
-         "of length 0, 1, 2, of every 3-byte block with first byte in {0, 77, 251, 255} (quick) / every first byte = all"
-         " 16.8 M blocks (thorough), 4-byte strings with 6 prefixes; decode of every text of length 0..4 over a "
-         "32-character alphabet (alphabet edges, both alphabets, '=', foreign bytes, high-bit bytes incl. the high-bit "
-         "twins of alphabet characters), lengths 5..8 over 8 characters, length 4 over 40 characters (thorough), and "
-         "valid texts of length 2, 3, 4, 6, 7, 8 with ONE position ranging over all 255 byte values. Plus seeded random "
-         "strings up to 64 KiB (valid, one foreign byte, length 1 mod 4, standard alphabet, padded) in exact-size heap "
-         "buffers under ASan. Stage 'users': the codec through its callers - token segments of every JSON length "
-         "(unsigned and HS256), oct keys of every length, and JWK member texts that are not base64url although a prefix "
-         "is (an escaped NUL, then anything), through every entry point: no key may come out. distinct = distinct batch "
-         "descriptors / random cases.",
+         "foreign bytes ahead of '=' and of lengths 1 mod 4, canonical decoding - for all byte strings of length 1..2 and"
+         " all 3-byte strings over a byte set (12 values quick / all 256 for lengths 1..2 and 34 for length 3 thorough) "
+         "and all texts of length 1..3(4) over a 24-character class alphabet and 1..5 over an 8-character one. Against "
+         "the implementation (CodecBatch; inputs regenerated and counted in TLC): encode of every byte string of length "
+         "0, 1, 2, of every 3-byte block with first byte in {0, 77, 251, 255} (quick) / every first byte = all 16.8 M "
+         "blocks (thorough), 4-byte strings with 6 prefixes; decode of every text of length 0..4 over a 32-character "
+         "alphabet (alphabet edges, both alphabets, '=', foreign bytes, high-bit bytes incl. the high-bit twins of "
+         "alphabet characters), lengths 5..8 over 8 characters, length 4 over 40 characters (thorough), and valid texts "
+         "of length 2, 3, 4, 6, 7, 8 with ONE position ranging over all 255 byte values. Plus seeded random strings up to"
+         " 64 KiB (valid, one foreign byte, length 1 mod 4, standard alphabet, padded) in exact-size heap buffers under "
+         "ASan. Stage 'sweep': decode of the valid text of EVERY byte length 0..1100 (quick) / 0..6200 (thorough), "
+         "unpadded, padded and with one more character, and encode of the bytes (where an implementation switches between"
+         " a fixed buffer and the heap). Stage 'users' (JSON lengths to 300 quick / 1500 thorough): the codec through its"
+         " callers - token segments of every JSON length (unsigned and HS256), oct keys of every length, and JWK member "
+         "texts that are not base64url although a prefix is (an escaped NUL, then anything), through every entry point: "
+         "no key may come out. distinct = distinct batch descriptors / random cases.",
     assumptions=ASSUME_COMMON + ["jwt_base64uri_encode/_decode are called directly (internal symbols of the static library)"],
     level_text="The codec is transcribed into TLA+ (Base64.tla); TLC proves the inverse and rejection laws on the "
                "transcription over the bounded domains and checks every recorded (input, output) pair of the real "
@@ -545,17 +583,19 @@ PROPS["C18"] = dict(
                                   dopts=dict(env={"TSAN_OPTIONS": "halt_on_error=1:exitcode=66:report_signal_unsafe=0:second_deadlock_stack=1"}))],
     rule=
          "On the specification (MC_C18): all interleavings of three threads, each taking generate / verify own token / "
-         "verify damaged token on its own builder and checker over one shared keyring; every result equals the result of"
-         " the same call made alone; the keyring, provider and clock are never written. Against the implementation: 12 "
+         "verify damaged token on its own builder and checker over one shared keyring; every result equals the result of "
+         "the same call made alone; the keyring, provider and clock are never written. Against the implementation: 12 "
          "(GnuTLS) / 13 (OpenSSL) threads at once - HS256, HS512, RS256, PS256, ES256, ES384, ES512, EdDSA (Ed25519, "
-         "Ed448), ES256K, three algorithms twice - each with its own builder and checker, sharing one keyring of 12 "
-         "keys, 150 (quick) / 2000 (thorough) iterations of claim_set + generate + verify + verify damaged, random start"
-         " skew, 6 (quick) / 30 (thorough) repetitions per provider - in one repetition of three the threads hold their "
-         "keys, in one they look them up by kid in the shared keyring from their callbacks at every call "
-         "(jwks_find_bykid), in one they walk the shared keyring by index (jwks_item_count / jwks_item_get) -, libjwt "
-         "and driver built with ThreadSanitizer (halt on first report); the same calls are first made one after another "
-         "and both result lists (verdicts, and token digests for deterministic algorithms) are compared in TLC. distinct"
-         " = distinct (provider, repetition) runs; evaluations = Thread events judged.",
+         "Ed448), ES256K, three algorithms twice - each with its own builder and checker, sharing one keyring of 12 keys,"
+         " 150 (quick) / 2000 (thorough) iterations of claim_set + generate + verify + verify damaged, random start skew,"
+         " 6 (quick) / 30 (thorough) repetitions per provider - in one repetition of three the threads hold their keys, "
+         "in one they look them up by kid in the shared keyring from their callbacks at every call (jwks_find_bykid), in "
+         "one they walk the shared keyring by index (jwks_item_count / jwks_item_get) -, libjwt and driver built with "
+         "ThreadSanitizer (halt on first report); the same calls are also made one after another - before the threads "
+         "start in every other repetition, AFTER them in the others, so that whatever the library initialises lazily is "
+         "initialised by racing threads - and both result lists (verdicts, and token digests for deterministic "
+         "algorithms) are compared in TLC. distinct = distinct (provider, repetition) runs; evaluations = Thread events "
+         "judged.",
     assumptions=ASSUME_COMMON + ["data races are detected by ThreadSanitizer on the schedules that actually occurred; OpenSSL, GnuTLS and jansson are not instrumented"],
     level_text="Exploration: schedules of the real code are sampled under a race detector, not enumerated; the model-"
                "checked part is the design (no shared mutable state between separate builders/checkers).",
@@ -572,17 +612,18 @@ PROPS["C20"] = dict(
     rule=
          "On the specification: Apalache discharges the inductive invariant of spec/apalache/ToolsInd.tla (exit status "
          "zero iff no token failed, token lists of any length); TLC (Tools.tla via MC_C20): the jwt-verify machine over "
-         "token lists good^g bad^b in three orders for g in {0,1,3} and b in {0,1,2,255,256,257,512} (quick) / every b "
-         "in 0..520 (thorough): exit status zero iff every token verified, failure counter exact. Against the tools "
-         "built from the working tree: jwt-verify over the same counts through argv and stdin in two orders (tokens made"
-         " by jwt-generate; failing ones by damaging the signature), plus 1, 3 and 600 good tokens with 0 or 2 bad ones "
-         "in each output mode (plain, -v, -v -p CMD; short and long spellings) under the usual 1024-descriptor limit; "
+         "token lists good^g bad^b in three orders for g in {0,1,3} and b in {0,1,2,255,256,257,512} (quick) / every b in"
+         " 0..520 (thorough): exit status zero iff every token verified, failure counter exact. Against the tools built "
+         "from the working tree: jwt-verify over the same counts through argv and stdin in two orders (tokens made by "
+         "jwt-generate; failing ones by damaging the signature), plus 1, 3 and 600 good tokens with 0 or 2 bad ones in "
+         "each output mode (plain, -v, -v -p CMD; short and long spellings) under the usual 1024-descriptor limit; "
          "jwt-generate | jwt-verify round trips for ten key/alg pairs (key with and without alg attribute, so that "
          "-a/--algorithm is exercised) x short/long option spelling on either side x --json x --no-iat, with -c/--claim "
-         "of every type; key2jwk on every fixture key file (RSA 512..4096, every curve incl. twelve EC keys whose x, y "
-         "or d has a leading zero byte, Ed25519, Ed448; private and public PEM; oct files of 32..512 bytes): one key, "
-         "imported by the library without error, same public and private components (driver projection), fixed-width EC "
-         "x/y/d; jwk2key of that JWKS, and the file it writes converted again must still be the same key; key2jwk with "
+         "of every type; key2jwk on every fixture key file (RSA 512..4096, every curve incl. twelve EC keys whose x, y or"
+         " d has a leading zero byte, Ed25519, Ed448; private and public PEM; oct files of 32..512 bytes), and an "
+         "id-RSASSA-PSS key file (private and public): one key, imported by the library without error, same public and "
+         "private components (driver projection), fixed-width EC x/y/d; jwk2key of that JWKS, and the file it writes "
+         "converted again must still be the same key, of the same type (rsaEncryption / id-RSASSA-PSS); key2jwk with "
          "several files in one invocation (every order of an oct, an RSA, an EC and an Ed25519 file, all pairs incl. "
          "repeated types): the i-th JWK must denote the i-th file's key. distinct = distinct cells.",
     assumptions=ASSUME_COMMON + ["tool output is decoded by the Python runner (bin/vtools.py), which logs and never judges; key identity is decided by the driver's projection against the key it exported"],
@@ -602,6 +643,6 @@ PROPS["WALK"] = dict(
 )
 
 
-for _p in ("C02", "C03", "C10", "C13", "C14", "C19"):
+for _p in ("C01", "C02", "C03", "C04", "C06", "C09", "C10", "C13", "C14", "C19"):
     PROPS[_p]["rule"] += APIWALK_NOTE
     PROPS[_p]["exhaustive"] = False
